@@ -294,6 +294,12 @@ def gen_config(rng, adversarial=False, profile="default"):
         co.append("w.topic=" + hexs(b"will/t") + f" w.qos={rng.choice([0, 1, 2])} w.payload=" + hexs(b"bye"))
     if rng.chance(0.2):
         co.append("up=" + hexs(b"k") + ":" + hexs(b"v"))
+    if profile == "qos2tiny":
+        cfg["policy"] = "all"
+        cfg.pop("retries", None)
+        cfg["drain"] = "none"
+        co = [x for x in co if not x.startswith("rejoin=") and not x.startswith("mps=") and not x.startswith("w.") and not x.startswith("up=")]
+        co.append("rejoin=always")
     if profile == "backlog":
         # many unacknowledged operations across resumed sessions: retain everything, rejoin sessions
         cfg["policy"] = rng.choice(["all", "all", "acked"])
@@ -359,9 +365,11 @@ class Walk:
         to = ""
         if r.chance(0.3):
             to = f" timeout={r.choice([1, 50, 500, 5000])}"
+        if self.profile == "qos2tiny":
+            k = "pub"
         if k == "pub":
-            qos = r.choice([0, 1, 1, 2, 2])
-            payload = bytes([n >> 8, n & 0xFF]) + bytes(r.randint(0, 255) for _ in range(r.choice([0, 3, 10, 40, 200])))
+            qos = r.choice([0, 1, 1, 2, 2]) if self.profile != "qos2tiny" else r.choice([1, 2, 2, 2])
+            payload = bytes([n >> 8, n & 0xFF]) + bytes(r.randint(0, 255) for _ in range(r.choice([0, 3, 10, 40, 200]) if self.profile != "qos2tiny" else r.choice([0, 1, 3])))
             f = [f"pid=0 topic={hexs(b't/%d' % (n % 7))} qos={qos} retain={1 if r.chance(0.15) else 0} payload={hexs(payload)}"]
             if self.v5 and r.chance(0.3):
                 f.append(f"ta={r.choice([1, 2, 3])}")
@@ -393,6 +401,8 @@ class Walk:
         self.broker.new_connection()
         dl = self.t + self.rng.choice([1, 50, 1000, 30000, 30000, 30000, 30000])
         self.cap = self.rng.choice([4, 5, 7, 8, 12, 16, 23, 40, 64, 128, 4096, 4096])
+        if self.profile == "qos2tiny":
+            self.cap = self.rng.choice([4, 4, 5, 6, 7, 9, 64])
         self.buf_len = 0
         self.errored = False
         self.tainted = False
@@ -438,7 +448,7 @@ class Walk:
         r = self.rng
         b = self.broker
         rc = 0 if r.chance(0.9) else r.choice([135, 136])
-        sp = 1 if (b.session and rc == 0 and r.chance(0.95 if self.profile == "backlog" else 0.7)) else 0
+        sp = 1 if (b.session and rc == 0 and r.chance(0.95 if self.profile in ("backlog", "qos2tiny") else 0.7)) else 0
         if getattr(b, "clean_start", False):
             sp = 0          # a conformant server discards the session on Clean Start
         if self.adv and r.chance(0.05):
@@ -481,6 +491,14 @@ class Walk:
         if not b.pending:
             return False
         i = 0 if r.chance(0.7) else r.randrange(len(b.pending))
+        if self.profile == "qos2tiny":
+            # answer PUBLISH with PUBREC promptly but sit on the PUBCOMPs
+            cand = [j for j, p in enumerate(b.pending) if p["kind"] != "pubcomp"]
+            if not cand:
+                if r.chance(0.8):
+                    return False
+            else:
+                i = cand[0]
         p = b.pending.pop(i)
         k = p["kind"]
         if k in ("puback", "pubrec", "pubrel", "pubcomp"):
@@ -653,7 +671,7 @@ class Walk:
                     self.service()
             elif c < 0.84:
                 self.advance()
-            elif c < 0.875:
+            elif c < (0.875 if self.profile != "qos2tiny" else 0.90):
                 self.close()
             elif c < 0.89:
                 self.user_disconnect()
